@@ -27,8 +27,22 @@ BLOCKS = {
 }
 
 
-def _expected(model, family, rec, params, decorated, Ktrain, dyn=None):
+INSTANCES = {
+    # tag: (class name, constructor kwargs of the model under test, kwargs of the SIBLING used first on the same data, independent affinity of a batch)
+    "inst:mmd_rbf": ("MMDGEMINI", dict(kernel="rbf", kernel_params={"gamma": 0.3}), dict(kernel="rbf", kernel_params={"gamma": 2.0}),
+                     lambda Xb: __import__("sklearn.metrics", fromlist=["x"]).pairwise_kernels(Xb, metric="rbf", gamma=0.3)),
+    "inst:mmd_poly_ovo": ("MMDGEMINI", dict(ovo=True, kernel="poly", kernel_params={"degree": 2, "coef0": 0.5, "gamma": 0.4}),
+                          dict(ovo=True, kernel="poly", kernel_params={"degree": 3, "coef0": 0.0, "gamma": 1.0}),
+                          lambda Xb: __import__("sklearn.metrics", fromlist=["x"]).pairwise_kernels(Xb, metric="poly", degree=2, coef0=0.5, gamma=0.4)),
+    "inst:w_sqeuclid": ("WassersteinGEMINI", dict(metric="euclidean", metric_params={"squared": True}), dict(metric="euclidean", metric_params={"squared": False}),
+                        lambda Xb: __import__("sklearn.metrics", fromlist=["x"]).pairwise_distances(Xb, metric="euclidean", squared=True)),
+}
+
+
+def _expected(model, family, rec, params, decorated, Ktrain, dyn=None, indep=None):
     Xb, Ab = rec["X"], rec["A"]
+    if indep is not None:
+        Ab = indep(np.asarray(Xb, dtype=float))       # the affinity the estimator's OWN hyperparameters describe, computed here from the batch
     if dyn is not None and dyn["in_path"]:
         # dynamic mode as CONFIGURED by the user: the affinity of a step is the (linear) kernel of the features selected when the step began,
         # computed here from the batch itself - independent of what the library handed to its objective
@@ -81,8 +95,22 @@ def train_case(case):
         n, d = 4, 4
     X = seams.tiny_data(n, d, seed + data_id)
     kw = dict(solver=solver, max_iter=max_iter, learning_rate=lr, random_state=seed)
+    indep = None
     if family not in ("RIM", "KernelRIM"):
         kw["gemini"] = gemini
+        if isinstance(gemini, str) and gemini.startswith("inst:"):
+            import gemclus.gemini as Gm
+            cls_, own_, sib_, indep = INSTANCES[gemini]
+            kw["gemini"] = getattr(Gm, cls_)(**{k_: (dict(v_) if isinstance(v_, dict) else v_) for k_, v_ in own_.items()})
+            # a sibling candidate (same kernel / metric NAME, same parameter KEYS, other values) works on the same data first, in this process -
+            # what a grid search over kernel parameters does for every fold
+            sib_kw = dict(kw, gemini=getattr(Gm, cls_)(**sib_))
+            try:
+                sib = M.make(family, **dict(sib_kw, n_clusters=3 if data_id in (0, 20) else 2, **({"batch_size": bs} if family != "CategoricalModel" else {})))
+                sib.fit(X.copy())
+                sib.score(X.copy())
+            except Exception:  # noqa
+                pass
     if family != "CategoricalModel":
         kw["batch_size"] = bs
     # all of n, d, K, hidden pairwise distinct so that an axis mix-up cannot hide behind a square shape
@@ -136,7 +164,7 @@ def train_case(case):
         state["step"] += 1
         if dyn is not None:
             dyn["since"] += 1
-        exp, skipped, g, P = _expected(model, family, rec, params, decorated, Ktrain, dyn)
+        exp, skipped, g, P = _expected(model, family, rec, params, decorated, Ktrain, dyn, indep)
         state["skipped"] += skipped
         if len(grads) != len(params):
             state["v"].append(violation("wrong_number_of_directions", f"{len(grads)} directions for {len(params)} parameters", **where))
@@ -264,6 +292,11 @@ def explorers(tier, seed):
                 for bs in ([None] if family == "CategoricalModel" else [2, None]):
                     for data_id in ((0, 20) if family in ("SparseLinearModel", "SparseMLPModel") and solver == "adam" else (0,)):
                         cases.append((family, gem, solver, bs, False, data_id, 3, 0.1, seed, route))
+    for family in ("LinearModel", "MLPModel", "SparseLinearModel", "CategoricalModel", "Douglas"):
+        for inst in INSTANCES:
+            for bs in ([None] if family == "CategoricalModel" else [2, None]):
+                for data_id in ((0, 20) if family == "SparseLinearModel" else (0,)):
+                    cases.append((family, inst, "adam", bs, False, data_id, 3, 0.1, seed))
     for family in ("SparseLinearModel", "SparseMLPModel"):
         for route_ in ("dynamic", "dynamic_after_refused_path"):
             for bs in (2, None):
